@@ -38,12 +38,17 @@ def cases(tier, rng):
     yield {'kind': 'mux', 'term': [['map', ['raise_if_mod', 2, 0]], ['route'], ['to_list']], 'items': [1, 2, 3, 4]}
     yield {'kind': 'mux', 'term': [['scan', ['raise_if_mod', 3, 0], 0, False, None], ['err_map', -1], ['to_list']], 'items': [1, 3, 2]}
     yield {'kind': 'mux', 'term': [['map', ['raise_if_mod', 2, 0]]], 'items': [1, 2, 3]}
+    # replacement values that are falsy / None: the mapped item must still take the place of the failing one
+    for v in (None, 0, False, ''):
+        yield {'kind': 'mux', 'term': [['map', ['raise_if_mod', 2, 0]], ['err_map', v]], 'items': [2, 1, 4, 4, 3], 'fail': [2, 0], 'op': 'map'}
+        yield {'kind': 'mux', 'term': [['group_by', ['mod', 3], [['map', ['raise_if_mod', 2, 0]], ['err_map', v], ['count', False]]]],
+               'items': [2, 1, 4, 4, 3, 6], 'fail': [2, 0], 'op': 'map'}
     n = {'quick': 1500, 'thorough': 10000, 'search': 600}[tier]
     for _ in range(n):
         op, (k, r), kind = failing_op(rng)
-        h = rng.choice([['ignore'], ['err_map', -1], ['err_map_name'], ['route'], ['route', 'late'], None])
+        h = rng.choice([['ignore'], ['err_map', -1], ['err_map', None], ['err_map', 0], ['err_map_name'], ['route'], ['route', 'late'], None])
         down = rng.choice([[], [], [['count', False]], [['to_list']], [['scan', ['add'], 0, False, None]], [['last']], [['lag', 1]]])
-        if h == ['err_map_name'] and down and down[0][0] == 'scan':
+        if h in (['err_map_name'], ['err_map', None]) and down and down[0][0] == 'scan':
             down = [['to_list']]
         pipe = op + ([h] if h else []) + (down if h else [])
         items = muxgen.gen_items(rng, n=rng.choice([1, 2, 3, 5, 8, 13]))
@@ -149,7 +154,7 @@ def oracle(case, r):
     else:
         # error.map: the stage right after the handler sees, per source position, the mapped value in place
         if len(pipe) == hidx[0] + 1 and not grouped and case['op'] in ('map', 'starmap'):
-            mapped = -1 if h[0] == 'err_map' else 'ValueError'
+            mapped = h[1] if h[0] == 'err_map' else 'ValueError'
             want = [[]] + [[{'i': mapped}] if x % k == rr else [{'i': enc((x, x)[0])}] for x in xs] + [[]]
             if case['op'] == 'starmap':
                 return None
